@@ -454,6 +454,31 @@ def rule_r4(ctx):
             rr.ok(what)
         else:
             rr.fail(f"C04-R4|{kind}|quote-not-inherited", f"{fi.where()}: {kind} does not pass the enclosing quote on to its children", where=fi.where(), what=what)
+    # a format spec is part of the enclosing literal: it is rendered under the enclosing quote, not
+    # handed to the driver as a child string (whose quote is flipped)
+    from ..ustr import hole_field
+
+    rr.instances += 1
+    flips = q[("JoinedStr", "'")] != {"'"}
+    n_spec = 0
+    bad_spec = None
+    for pr in ctx.ustr.paths("FormattedValue"):
+        for h in getattr(pr, "holes", []):
+            chain = hole_field(h) or []
+            if chain and chain[0][0] == "format_spec":
+                n_spec += 1
+                if len(chain) == 1 and flips:
+                    bad_spec = bad_spec or h
+    if bad_spec is not None:
+        rr.fail(
+            "C04-R4|FormattedValue|format_spec|rendered-as-nested-string",
+            f"{ctx.ustr.gen_map['FormattedValue'].where()}: the format spec is yielded to the driver like a nested string, so its quote is flipped and the literals inside its nested fields get the quote of the enclosing f-string again (`f'{{x:{{'>'}}}}'`: a syntax error before Python 3.12)",
+            where=ctx.ustr.gen_map["FormattedValue"].where(), what="quote|format_spec",
+        )
+    elif n_spec == 0:
+        raise AnalysisError("C04-R4: no hole below FormattedValue.format_spec found (the spec is not rendered?)")
+    else:
+        rr.ok("quote|format_spec", sample={"rule": "C04-R4", "format_spec": "rendered in line under the enclosing quote", "holes_below_spec": n_spec})
     # only two quote characters: nesting depth 3 re-uses the outermost quote
     rr.instances += 1
     quotes = set()
